@@ -240,6 +240,26 @@ def start_failure_stage_reference(check, j):
     return {"program": prog, "scripts": scripts, "input": {"tag": "T1"}, "shape": "start-failure/%s=%s/%s" % (k, v, how), "outcome": {"A": "start-failed"}}
 
 
+def stop_on_own_enabling(check, j):
+    """X's stop condition is its own enabling result (or that of a sibling that is enabled in the same round): the condition fires
+    in the very round in which X's starting input is handed over, before X has started - X is closed, never run."""
+    rng = random.Random(derive_seed(check.seed, "c04-ownenable", j))
+    how = ["own-resolved", "own-enabled-field", "own-with-wait_for", "own-with-enabled-expr"][j % 4]
+    X = gen.plugin_step("X", Expr(In("tag")), stop_if=Expr(Ref("X", "enabling", "resolved")) if how != "own-enabled-field" else Expr(Ref("X", "enabling", "resolved", "enabled")))
+    X.stop_mode = "before"
+    steps = [X]
+    if how == "own-with-wait_for":
+        steps.append(gen.plugin_step("q", Expr(In("tag"))))
+        X.fields["wait_for"] = Expr(Ref("q", "outputs", "success"))
+    if how == "own-with-enabled-expr":
+        X.fields["enabled"] = Expr(In("flag"))
+    Y = gen.plugin_step("Y", gen.tagref("X"))
+    steps.append(Y)
+    rng.shuffle(steps)
+    prog = Program(steps, {"ran": {"y": gen.tagref("Y")}, "stopped": {"r": Expr(Ref("X", "closed", "result"))}}, gen.BASE_INPUT)
+    return {"program": prog, "scripts": gen.make_scripts(steps, {}), "input": {"tag": "T1", "flag": True}, "shape": "stop-condition-is-own-enabling-result/" + how, "outcome": {"X": "stopped-before-start"}}
+
+
 def run(check):
     check.rule = ("a failing (error/alt/crash/drop/deploy failure) or disabled step placed at every position of 6 shapes (enumerated), the two-hop "
                   "stop-before-start construction, a loop item ending in another declared output with a step needing the loop's success, a step enabled by the enabling result "
@@ -265,6 +285,7 @@ def run(check):
         gs.append(loop_disabled_by_constant(check, j))
     for j in range(check.pick(20, 80)):
         gs.append(start_failure_stage_reference(check, j))
+
     for j in range(check.pick(24, 200)):
         gs.append(loop_other_output(check, j))
         gs.append(chained_enablement(check, j))
@@ -324,6 +345,28 @@ def run(check):
     with harness.Runner() as rn:
         runfam.run_and_monitor(check, rn, items, {"C04"}, on_result=on_result, monitor=monitor)
         pout = rn.run_cases([{k: v for k, v in c.items() if not k.startswith("_")} for c in direct], per_case_timeout=60)
+        own = []
+        for j in range(check.pick(24, 120)):
+            g = stop_on_own_enabling(check, j)
+            own.append(({"id": "c04-o%04d" % j, "files": g["program"].files(), "scripts": g["scripts"], "runs": [{"input": g["input"]}]}, g))
+        oout = rn.run_cases([c for c, _g in own], per_case_timeout=60)
+    for case, g in own:
+        o = oout.get(case["id"], {})
+        check.count()
+        res = o.get("result") or {}
+        if "death" in o or res.get("prepare_err") or res.get("parse_err"):
+            # (the reference does not interpret a stop condition on the step's own stage; if preparation refuses it, nothing is claimed)
+            check.nontrivial("own-enabling|refused-or-died")
+            continue
+        ev = res.get("events") or []
+        run = (res.get("runs") or [{}])[0]
+        ran = sorted(set(e["src"] for e in ev if e["kind"] == "exec-start" and e["src"] in ("X", "Y")))
+        if ran:
+            check.report("exec@stopped-in-the-round-of-its-input", "%s: the stop condition (the step's own enabling result) was true before the step started, yet plugin(s) %s were executed; result %r / %s" % (
+                g["shape"], ran, run.get("out_id"), (run.get("err") or "")[:150]), {"case": case, "result": runfam.strip(res)})
+        elif run.get("out_id") != "stopped":
+            check.report("stop@result", "%s: expected the output `stopped`, got %r / %s" % (g["shape"], run.get("out_id"), (run.get("err") or "")[:150]), {"case": case, "result": runfam.strip(res)})
+        check.nontrivial(g["shape"])
     for c in direct:
         o = pout.get(c["id"], {})
         check.count()
